@@ -55,9 +55,15 @@ import (
 //@   property C16
 //@   ensures [total] true
 
+// The four chained varints at symbolic offsets make this the most expensive
+// obligation of the pack (about 2-3 minutes): it is checked in the thorough tier only
+// and for one-byte key/value length fields; the per-varint inverse
+// (verifUvarintModel) and the decoder's safety are proved in every tier.
+//
 //@ func verifHeaderRoundTrip
 //@   property C16
-//@   tag inline-calls no-hints
+//@   tag inline-calls no-hints thorough-only
+//@   timeout 600
 //@   requires h.KeyLen < 128 && h.ValueLen < 128
 //@   ensures [roundtrip] result
 func verifHeaderRoundTrip(h EntryHeader) bool {
